@@ -65,10 +65,43 @@ def build(tier, known):
         hs.append(E2Spec(f'e2_c01_doc_len{L}', 'ParseElementDocs', dict(length=L, aspect='c01'), functions=PFUNCS,
                          bound=f'ALL {11 ** L} token sequences of length exactly {L} as the body of the root element; ' + SCHEMA,
                          claim='the loaded tree equals an independent reading of the document: elements and text items in document order, comments attached to the following element', native=('data', 'n_parse_element_doc'), parts=(16 if L >= 4 else (4 if L == 3 else 1)), timeout=1500 if q else 7200))
-    for base in ([0, 1, 2, 3, 4, 7, 9, 10] if q else range(0, 11)):
-        hs.append(E2Spec(f'e2_c01_doc_edits{base}', 'ParseElementDocs', dict(base=base, aspect='c01', sym_texts=(2 if base < 5 else 1)), functions=PFUNCS,
+    for base in ([0, 1, 2, 3, 4, 7, 9, 10, 11] if q else range(0, 12)):
+        hs.append(E2Spec(f'e2_c01_doc_edits{base}', 'ParseElementDocs', dict(base=base, aspect='c01', sym_texts=(2 if base < 5 or base == 11 else 1), sym_comments=(1 if base == 3 else 0)), functions=PFUNCS,
                          bound=f'seed document no. {base} of mirsym/e2defs.py VALID_DOCS (valid documents and documents with one defect) and ALL its single-token edits (delete, duplicate, replace by any token, insert any token anywhere); ' + SCHEMA,
-                         claim='the loaded tree equals an independent reading of the document: elements and text items in document order, comments attached to the following element', native=('data', 'n_parse_element_doc'), parts=(16 if base in (4, 5, 6, 7, 8) else 8), timeout=1500 if q else 7200))
+                         claim='the loaded tree equals an independent reading of the document: elements and text items in document order, comments attached to the following element', native=('data', 'n_parse_element_doc'), parts=(16 if base in (4, 5, 6, 7, 8, 11) else 8), timeout=1500 if q else 7200))
+    for K in range(0, (3 if q else 4) + 1):
+        hs.append(E2Spec(f'e2_c01_doc_children{K}', 'ParseElementDocs', dict(children=K, aspect='c01', sym_texts=2, sym_comments=1), functions=PFUNCS,
+                         bound=f'one AR-PACKAGE with ALL {6 ** K} sequences of exactly {K} children, each one of: SHORT-NAME with a text, CATEGORY with a text, empty AR-PACKAGES, a comment, a stray text, SHORT-NAME without text; the first two texts are one symbolic byte, the first comment has three symbolic bytes; ' + SCHEMA,
+                         claim='the loaded tree equals an independent reading of the document: elements and text items in document order, comments attached to the following element', native=('data', 'n_parse_element_doc'), parts=(16 if K >= 3 else (4 if K == 2 else 1)), timeout=1500 if q else 7200))
+    SFUNCS = PFUNCS + ['element::Element::serialize_internal', 'element::Element::serialize_newline_indent', 'element::Element::serialize_attributes', 'element::Element::content_type',
+                       'element::Element::sub_elements', 'ElementsIterator::next', 'ElementContentIterator::next', 'chardata::CharacterData::serialize_internal', 'chardata::escape_text']
+    RT_CLAIM = ('for every document that strict loading accepts: the text written by the real Element::serialize_internal is accepted again by the real tokenizer + parse_element, '
+                'the second tree equals the first (names, comments, content items in order, values) and serializing the second tree gives byte-identical text')
+    for L in range(0, (3 if q else 4) + 1):
+        hs.append(E2Spec(f'e2_c01_doc_rt_len{L}', 'ParseElementDocs', dict(length=L, aspect='c01rt'), functions=SFUNCS,
+                         bound=f'ALL {11 ** L} token sequences of length exactly {L} as the body of the root element; ' + SCHEMA,
+                         claim=RT_CLAIM, native=('data', 'n_parse_element_doc'), parts=(16 if L >= 4 else (4 if L == 3 else 1)), timeout=1500 if q else 7200,
+                         known_keys=['C01-comment-inside-character-data']))
+    for base in ([0, 2, 3, 4, 11] if q else range(0, 12)):
+        hs.append(E2Spec(f'e2_c01_doc_rt_edits{base}', 'ParseElementDocs', dict(base=base, aspect='c01rt', sym_texts=(2 if base < 5 or base == 11 else 1), sym_comments=(1 if base == 3 else 0)), functions=SFUNCS,
+                         bound=f'seed document no. {base} of mirsym/e2defs.py VALID_DOCS and ALL its single-token edits (delete, duplicate, replace by any token, insert any token anywhere); ' + SCHEMA,
+                         claim=RT_CLAIM, native=('data', 'n_parse_element_doc'), parts=(16 if base in (4, 5, 6, 7, 8, 11) else 8), timeout=1500 if q else 7200,
+                         known_keys=['C01-comment-inside-character-data']))
+    for K in range(0, (3 if q else 4) + 1):
+        hs.append(E2Spec(f'e2_c01_doc_rt_children{K}', 'ParseElementDocs', dict(children=K, aspect='c01rt', sym_texts=2, sym_comments=1), functions=SFUNCS,
+                         bound=f'one AR-PACKAGE with ALL {6 ** K} sequences of exactly {K} children, each one of: SHORT-NAME with a text, CATEGORY with a text, empty AR-PACKAGES, a comment, a stray text, SHORT-NAME without text; the first two texts are one symbolic byte, the first comment has three symbolic bytes; ' + SCHEMA,
+                         claim=RT_CLAIM, native=('data', 'n_parse_element_doc'), parts=(16 if K >= 3 else (4 if K == 2 else 1)), timeout=1500 if q else 7200,
+                         known_keys=['C01-comment-inside-character-data']))
+    # ---- mixed content (documentation text): the third layout branch of the serializer, inline comments, attributes ----
+    MIXED = 'schema extension for mixed content: AR-PACKAGE > DESC (0..1) > L-2* (Mixed content, required enum attribute L) > BR (empty element), SUP (character element), text; 8 more tokens (<DESC>, </DESC>, <L-2 L="EN">, </L-2>, <BR/>, <SUP>, </SUP>, <L-2>); package SHORT-NAME fixed to x'
+    for K in range(0, (2 if q else 3) + 1):
+        hs.append(E2Spec(f'e2_c01_doc_rt_mixed{K}', 'ParseElementDocs', dict(mixed=K, aspect='c01rt', sym_texts=3, first_text_concrete=True, sym_comments=0), functions=SFUNCS + ['element::Element::serialize_attributes', 'parser::ArxmlParser::parse_attribute_text'],
+                         bound=f'one package with DESC > L-2 L="EN" holding ALL {4 ** K} sequences of exactly {K} items, each one of: text (one symbolic byte, the first two), <BR/>, <SUP>text</SUP>, a comment; ' + MIXED + '; ' + SCHEMA,
+                         claim=RT_CLAIM + ' (attributes included)', native=('data', 'n_parse_element_doc'), parts=(16 if K >= 3 else (8 if K == 2 else 1)), timeout=1500 if q else 7200,
+                         known_keys=['C01-comment-inside-character-data']))
+    hs.append(E2Spec('e2_c01_doc_rt_mixed_edits', 'ParseElementDocs', dict(mixed_base=0, aspect='c01rt', sym_texts=2, first_text_concrete=True), functions=SFUNCS,
+                     bound='the seed <AR-PACKAGES><AR-PACKAGE><SHORT-NAME>x</SHORT-NAME><DESC><L-2 L="EN">?<BR/>x</L-2></DESC></AR-PACKAGE></AR-PACKAGES></AUTOSAR> and ALL its single-token edits over the 19 tokens; ' + MIXED + '; ' + SCHEMA,
+                     claim=RT_CLAIM + ' (attributes included)', native=('data', 'n_parse_element_doc'), parts=16, timeout=1500 if q else 7200, known_keys=['C01-comment-inside-character-data']))
     info = dict(
         assumptions=[
             'E2: texts are ASCII up to the larger bound, arbitrary bytes up to the smaller one (values reach non-ASCII only through decoded character references, which are covered); the text token contains no `<` (tokenizer postcondition, decided by h_c01_read_characters)',
